@@ -275,9 +275,105 @@ let accepts_case (line : string) : string =
     end) obs_tokens;
   if !rej < 0 then "accept" else Printf.sprintf "reject@%d" !rej
 
+
+(* ---------------------------------------------------------------------- *)
+(* fork family (harness/c09_fork.c):  case  "n ; ops"                       *)
+(* ---------------------------------------------------------------------- *)
+let fork_case (line : string) : string =
+  match String.split_on_char ';' line with
+  | [n; ops] ->
+    let n = int_of_string (String.trim n) in
+    let ops = split_on ' ' ops in
+    let hnum t = nat_of_int (int_of_string (String.sub t 2 (String.length t - 2))) in
+    let rec split_at_f acc = function
+      | [] -> (List.rev acc, None)
+      | "F" :: r -> (List.rev acc, Some r)
+      | x :: r -> split_at_f (x :: acc) r in
+    let (pre, post) = split_at_f [] ops in
+    let all_post = match post with Some r -> r | None -> [] in
+    let scripts who l =
+      let pick c = List.filter_map (fun t -> if t.[0] = who && t.[1] = c then Some (hnum t) else None) l in
+      [pick 's'; pick 't'] in
+    let runs who l = List.filter_map (fun t -> if t.[0] = who && t.[1] = 'r' then Some OpNowait else None) l in
+    let nobeh _ = [] in
+    let p0 = init (nat_of_int n) Z0 (runs 'p' (pre @ all_post)) nobeh (scripts 'p' (pre @ all_post)) in
+    let obs (s : state) (counter : z) =
+      String.concat "," (List.init n (fun i -> let h = s.hs (nat_of_int i) in
+                           (if h.pending then "1" else "0") ^ string_of_z h.busy))
+      ^ ":" ^ (if int_of_z counter > 0 then "r" else "-") in
+    let cbs_since (before : state) (after : state) =
+      let k = List.length after.out - List.length before.out in
+      let rec take k l = if k <= 0 then [] else match l with [] -> [] | x :: r -> x :: take (k - 1) r in
+      let evs = List.filter_map (function ECb (h, v) -> Some (Printf.sprintf "c%d=%s" (int_of_nat h) (string_of_z v)) | _ -> None)
+                  (List.rev (take k after.out)) in
+      if evs = [] then "-" else String.concat "+" evs in
+    let buf = Buffer.create 256 in
+    let add s = (if Buffer.length buf > 0 then Buffer.add_char buf ' '); Buffer.add_string buf s in
+    (* a process is stepped through [stp : state -> nat -> state option] *)
+    let send stp (s : state) tid =
+      let rec go s k = if k = 0 then failwith "send does not return" else
+        match stp s (nat_of_int tid) with
+        | None -> failwith "sender disabled"
+        | Some s' -> (match (List.nth s'.snd (tid - 1)).s_pc with SIdle -> s' | _ -> go s' (k - 1)) in
+      go s 10 in
+    let runloop stp (s : state) =
+      let rec go s k = if k = 0 then failwith "run does not return" else
+        match stp s O with
+        | None -> failwith "loop disabled"
+        | Some s' -> (match s'.lp.l_pc with LTop -> s' | _ -> go s' (k - 1)) in
+      go s 200 in
+    let single_step s t = step_gen true s t in
+    let par = ref p0 in
+    List.iter (fun t ->
+      match t.[1] with
+      | 's' | 't' ->
+        let tid = if t.[1] = 's' then 1 else 2 in
+        par := send single_step !par tid;
+        add (Printf.sprintf "p%c%d:%s" t.[1] (int_of_nat (hnum t)) (obs !par (!par).efd))
+      | 'r' ->
+        let b = !par in par := runloop single_step !par;
+        add (Printf.sprintf "pr:%s:%s" (cbs_since b !par) (obs !par (!par).efd))
+      | _ -> failwith "op") pre;
+    (match post with
+     | None ->
+       add "fresh=-";
+       add ("P" ^ String.concat "" (List.init n (fun i -> let h = (!par).hs (nat_of_int i) in
+             Printf.sprintf " h%d=%s/%s/%s" i (string_of_z h.published) (string_of_z h.seen) (string_of_z h.cb_count))))
+     | Some post ->
+       let y = ref (fork_sys true !par (runs 'c' post) nobeh (scripts 'c' post)) in
+       let counter child = if child then (!y).ctr (!y).ch_chi else (!y).ctr (!y).ch_par in
+       let st child = if child then (!y).chi else (!y).par in
+       (* stepping a process inside the system: returns the process's new state, updates y *)
+       let sys_stp child (_ : state) t =
+         match sys_step !y child t with
+         | None -> None
+         | Some y' -> y := y'; Some (if child then y'.chi else y'.par) in
+       add (Printf.sprintf "F:0:%s" (obs (st true) (counter true)));
+       List.iter (fun t ->
+         let child = t.[0] = 'c' in
+         let who = t.[0] in
+         match t.[1] with
+         | 's' | 't' ->
+           let tid = if t.[1] = 's' then 1 else 2 in
+           ignore (send (sys_stp child) (st child) tid);
+           add (Printf.sprintf "%c%c%d:%s" who t.[1] (int_of_nat (hnum t)) (obs (st child) (counter child)))
+         | 'r' ->
+           let b = st child in
+           ignore (runloop (sys_stp child) (st child));
+           add (Printf.sprintf "%cr:%s:%s" who (cbs_since b (st child)) (obs (st child) (counter child)))
+         | _ -> failwith "op") post;
+       add (Printf.sprintf "fresh=%d" (if (!y).ch_chi <> (!y).ch_par then 1 else 0));
+       let summ (s : state) = String.concat "" (List.init n (fun i -> let h = s.hs (nat_of_int i) in
+             Printf.sprintf " h%d=%s/%s/%s" i (string_of_z h.published) (string_of_z h.seen) (string_of_z h.cb_count))) in
+       add ("P" ^ summ (!y).par);
+       add ("C" ^ summ (!y).chi));
+    Buffer.contents buf
+  | _ -> failwith "bad fork case"
+
 let () =
   match Sys.argv.(1) with
   | "run" -> iter_lines (fun l -> print_string (run_case l); print_newline ())
   | "enum" -> iter_lines enum_case
+  | "fork" -> iter_lines (fun l -> print_string (try fork_case l with Failure m -> "MODEL-ERR " ^ m); print_newline ())
   | "accepts" -> iter_lines (fun l -> print_string (accepts_case l); print_newline ())
   | _ -> failwith "mode"
